@@ -1,6 +1,6 @@
 (* C09 — SIMUS stages are optimal LP solutions credited to the right alternatives. *)
 From Coq Require Import ZArith QArith List Bool Arith.
-From SKC Require Import Base.QBool Base.QList Model.Electre Model.Simus Theory.Simus.
+From SKC Require Import Base.QBool Base.QList Model.Electre Model.Simus Theory.Simus Theory.Simus2.
 Import ListNotations.
 
 (* the certificate checker is sound: an accepted (x, y) proves x feasible and OPTIMAL for the LP *)
@@ -36,6 +36,47 @@ Print Assumptions C09_second_method_formula.
 Theorem C09_values_credited_by_index : forall vals, credit_by_index vals = vals.
 Proof. exact credit_by_index_id. Qed.
 Print Assumptions C09_values_credited_by_index.
+
+(* the linear program built for stage z (minimise rows negated, row z removed) IS the documented one:
+   non-negative variables; every other maximised criterion at most its bound, every other minimised one at least *)
+Theorem C09_stage_program_is_the_documented_one : forall objs tm bv z x,
+  length objs = length tm -> length tm = length bv -> (z < length objs)%nat ->
+  (feasible (stage_lp objs tm bv z) x = true <-> doc_feasible objs tm bv z x).
+Proof. exact stage_lp_is_the_documented_program. Qed.
+Print Assumptions C09_stage_program_is_the_documented_one.
+
+(* so a stage whose certificate checks satisfies every documented constraint and attains the true optimum of
+   criterion z in that criterion's own sense *)
+Theorem C09_certified_stage_is_optimal : forall objs tm bv z x y,
+  length objs = length tm -> length tm = length bv -> (z < length objs)%nat ->
+  check_cert (stage_lp objs tm bv z) x y = true ->
+  doc_feasible objs tm bv z x /\
+  forall x', doc_feasible objs tm bv z x' ->
+    if nth z objs true then stage_value objs tm z x' <= stage_value objs tm z x
+    else stage_value objs tm z x <= stage_value objs tm z x'.
+Proof. exact certified_stage_is_optimal. Qed.
+Print Assumptions C09_certified_stage_is_optimal.
+
+(* scoring: first method cell; the second method's dominance table is the sum over the stages of how much one
+   alternative exceeds the other; what one alternative gains another loses *)
+Theorem C09_first_method_formula : forall n sr j, (j < n)%nat ->
+  nth j (first_method n sr) 0 =
+  qsum (col_of 0 sr j) * (inject_Z (Z.of_nat (length (filter (fun v => Qltb 0 v) (col_of 0 sr j)))) /
+                          inject_Z (Z.of_nat (length sr))).
+Proof. exact first_method_cell. Qed.
+Print Assumptions C09_first_method_formula.
+
+Theorem C09_dominance_table_cell : forall n sr a b,
+  Forall (fun c => length c = n) sr -> (a < n)%nat -> (b < n)%nat ->
+  qget (dominance_table n sr) a b == qsum (map (fun crit => pos_part (nth a crit 0 - nth b crit 0)) sr).
+Proof. exact dominance_table_cell. Qed.
+Print Assumptions C09_dominance_table_cell.
+
+Theorem C09_second_method_scores_sum_to_zero : forall n sr,
+  Forall (fun c => length c = n) sr ->
+  let '(score, _, _, _) := second_method n sr in qsum score == 0.
+Proof. exact second_method_scores_sum_to_zero. Qed.
+Print Assumptions C09_second_method_scores_sum_to_zero.
 
 Example C09_example :
   let objs := [true; true; false] in
